@@ -1693,7 +1693,6 @@ func (f *Frame) loopOwned(li *loopInfo) []*ssa.Alloc {
 	return out
 }
 
-
 // goroutineOwnObject: a goroutine started as a method on an object may change
 // that object's own fields (and those of its embedded structs) at any time
 // from now on: they are given arbitrary values here.  Its writes to anything
